@@ -33,9 +33,9 @@ func Main(prop, tier string) int {
 		return r.Finish()
 	}
 	n := vk.NumWorkers()
-	r.Fanout("c06feed", n, 30*time.Minute)
-	r.Fanout("c06proc", n, 30*time.Minute)
-	r.Fanout("c06live", n, 30*time.Minute)
+	r.Fanout("c06feed", n, 90*time.Minute)
+	r.Fanout("c06proc", n, 90*time.Minute)
+	r.Fanout("c06live", n, 90*time.Minute)
 	r.Floor("feed_streams", 500)
 	r.Floor("records_checked", 5000)
 	r.Floor("proc_runs", 50)
